@@ -65,17 +65,48 @@ structure St where
   written : Nat → Bool
   /-- ghost: the slot of claim index `i` has been cleared by its popper -/
   cleared : Nat → Bool
+  /-- ghost: the argument of thread `t`'s current / most recent `trypush` call -/
+  arg : Nat → Nat
+  /-- ghost: the threads that are inside a call (between their `call` and `ret` events) -/
+  active : List Nat
+  /-- ghost, per call (reset by the `call` event, see `step`): at some instant since thread
+      `t`'s current call began `justNow · t` held, i.e. the buffer was full (`t` pushing) /
+      empty (`t` popping) or some other thread was inside a call. -/
+  wit : Nat → Bool
 
 /-- `high & power_of_2_mod` with `power_of_2_mod = size - 1`. -/
 def idx (size n : Nat) : Nat := n &&& (size - 1)
 
 def init (size : Nat) : St :=
   { size := size, high := 0, low := 0, buf := fun _ => 0, pc := fun _ => .idle,
-    pushed := [], popped := [], written := fun _ => false, cleared := fun _ => false }
+    pushed := [], popped := [], written := fun _ => false, cleared := fun _ => false,
+    arg := fun _ => 0, active := [], wit := fun _ => false }
 
-def step (s : St) : Ev → Option St
+def Pc.pushing : Pc → Bool
+  | .pushCalled .. | .pushGotLow .. | .pushGotHigh .. | .pushReadSlot .. | .pushClaimed ..
+  | .pushDone .. => true
+  | _ => false
+
+def Pc.popping : Pc → Bool
+  | .popCalled | .popGotHigh .. | .popGotLow .. | .popReadSlot .. | .popClaimed ..
+  | .popDone .. => true
+  | _ => false
+
+/-- ghost predicate sampled at every instant (= after every event): in state `s` some thread
+    other than `t` is inside a call, or `t` is pushing and the buffer is full, or `t` is
+    popping and the buffer is empty. -/
+def justNow (s : St) (t : Nat) : Bool :=
+  s.active.any (fun u => u != t)
+    || ((s.pc t).pushing && decide (s.size ≤ s.high - s.low))
+    || ((s.pc t).popping && decide (s.high ≤ s.low))
+
+/-- the C code: one shared access per event (ghost fields other than `wit` are updated here) -/
+def core (s : St) : Ev → Option St
   | .callPush t v =>
-    if s.pc t = .idle ∧ v ≠ 0 then some { s with pc := upd s.pc t (.pushCalled v) } else none
+    if s.pc t = .idle ∧ v ≠ 0 then
+      some { s with pc := upd s.pc t (.pushCalled v), arg := upd s.arg t v,
+                    active := t :: s.active, wit := upd s.wit t false }
+    else none
   | .ldLow t x =>
     match s.pc t with
     | .pushCalled v =>
@@ -123,13 +154,19 @@ def step (s : St) : Ev → Option St
     | _ => none
   | .retPush t r =>
     match s.pc t with
-    | .pushDone r' => if r = r' then some { s with pc := upd s.pc t .idle } else none
+    | .pushDone r' =>
+      if r = r' then some { s with pc := upd s.pc t .idle, active := s.active.filter (fun u => u != t) }
+      else none
     | .pushReadSlot _ l h x =>
       -- the short-circuit `&&` gave up before the CAS
-      if (x ≠ 0 ∨ ¬ (h - l < s.size)) ∧ r = 0 then some { s with pc := upd s.pc t .idle } else none
+      if (x ≠ 0 ∨ ¬ (h - l < s.size)) ∧ r = 0 then
+        some { s with pc := upd s.pc t .idle, active := s.active.filter (fun u => u != t) }
+      else none
     | _ => none
   | .callPop t =>
-    if s.pc t = .idle then some { s with pc := upd s.pc t .popCalled } else none
+    if s.pc t = .idle then
+      some { s with pc := upd s.pc t .popCalled, active := t :: s.active, wit := upd s.wit t false }
+    else none
   | .casLow t found exp des ok =>
     match s.pc t with
     | .popReadSlot h l x =>
@@ -141,10 +178,20 @@ def step (s : St) : Ev → Option St
     | _ => none
   | .retPop t x =>
     match s.pc t with
-    | .popDone x' => if x = x' then some { s with pc := upd s.pc t .idle } else none
+    | .popDone x' =>
+      if x = x' then some { s with pc := upd s.pc t .idle, active := s.active.filter (fun u => u != t) }
+      else none
     | .popReadSlot h l y =>
-      if (y = 0 ∨ ¬ (l < h)) ∧ x = 0 then some { s with pc := upd s.pc t .idle } else none
+      if (y = 0 ∨ ¬ (l < h)) ∧ x = 0 then
+        some { s with pc := upd s.pc t .idle, active := s.active.filter (fun u => u != t) }
+      else none
     | _ => none
+
+/-- ghost bookkeeping only: after the event, every thread's per-call flag accumulates
+    `justNow` of the new state.  Never read by `core`, so it cannot restrict behaviour. -/
+def observe (s : St) : St := { s with wit := fun t => s.wit t || justNow s t }
+
+def step (s : St) (e : Ev) : Option St := (core s e).map observe
 
 def sys (size : Nat) : Sys St Ev := { init := init size, step := step }
 
